@@ -207,6 +207,10 @@ func genLockedFile(g *gen) {
 	}
 	if fd := lfFunc(g, lf, lfgo, "File", "Close"); fd != nil {
 		g.lfB("close_calls_closefile", "File.Close calls closeFile", len(lfCalls(fd.Body, "closeFile")) == 1)
+		g.lfB("close_checks_closed_first", "File.Close begins with `if f.closed { return <error> }; f.closed = true` and only then calls closeFile (a second Close does nothing)", lfCloseGuard(g, fd))
+	}
+	if fd := lfFunc(g, lf, lfgo, "", "OpenFile"); fd != nil {
+		g.lfB("openfile_fresh_file", "OpenFile returns a File it allocated itself with new(File) and assigns f nowhere else (no File object is ever handed out twice)", lfFreshFile(g, fd))
 	}
 
 	// ---- mutex.go
@@ -217,6 +221,9 @@ func genLockedFile(g *gen) {
 			g.lfN("mutex_flags", "flags Mutex.Lock passes to OpenFile", v)
 		}
 		g.lfB("mutex_unlock_closes", "the unlock function returned by Mutex.Lock calls f.Close()", len(lfCalls(fd.Body, "f.Close")) == 1)
+		plain, after := lfMutexUnlockShape(g, fd)
+		g.lfB("mutex_unlock_body_plain", "the unlock function returned by Mutex.Lock is a function literal whose whole body is mu.mu.Unlock(); f.Close() (no state shared between Lock calls)", plain)
+		g.lfB("mutex_inner_lock_after_open", "Mutex.Lock calls mu.mu.Lock() once, as a statement of its own, after OpenFile has returned the locked file", after)
 		if msg, ok := lfEmptyPathPanic(fd, "mu.Path"); ok {
 			g.lfB("mutex_lock_panics_on_empty_path", "Mutex.Lock starts with if mu.Path == \"\" { panic(...) }", true)
 			g.emitBytesLit("mutex_lock_panic_msg", "panic value of Mutex.Lock on an empty Path", msg)
@@ -343,6 +350,130 @@ func lfEmptyPathPanic(fd *ast.FuncDecl, what string) (string, bool) {
 	}
 	s, err := strconv.Unquote(l.Value)
 	return s, err == nil
+}
+
+// lfCloseGuard: File.Close is  if f.closed { return <non-nil> }; f.closed = true; ... closeFile(...)
+func lfCloseGuard(g *gen, fd *ast.FuncDecl) bool {
+	l := fd.Body.List
+	if len(l) < 3 {
+		return false
+	}
+	is, ok := l[0].(*ast.IfStmt)
+	if !ok || is.Init != nil || is.Else != nil || lfExprText(g, is.Cond) != "f.closed" || len(is.Body.List) != 1 {
+		return false
+	}
+	rs, ok := is.Body.List[0].(*ast.ReturnStmt)
+	if !ok || len(rs.Results) != 1 || lfExprText(g, rs.Results[0]) == "nil" {
+		return false
+	}
+	as, ok := l[1].(*ast.AssignStmt)
+	if !ok || as.Tok != token.ASSIGN || len(as.Lhs) != 1 || len(as.Rhs) != 1 ||
+		lfExprText(g, as.Lhs[0]) != "f.closed" || lfExprText(g, as.Rhs[0]) != "true" {
+		return false
+	}
+	cs := lfCalls(fd.Body, "closeFile")
+	if len(cs) != 1 || cs[0].Pos() < as.End() {
+		return false
+	}
+	// nothing else writes f.closed
+	n := 0
+	ast.Inspect(fd.Body, func(x ast.Node) bool {
+		if a, ok := x.(*ast.AssignStmt); ok {
+			for _, lhs := range a.Lhs {
+				if lfExprText(g, lhs) == "f.closed" {
+					n++
+				}
+			}
+		}
+		return true
+	})
+	return n == 1
+}
+
+// lfFreshFile: OpenFile's f is new(File) (once), f itself is assigned nowhere else, and
+// f.closed is not written (a File starts open and is closed by Close only).
+func lfFreshFile(g *gen, fd *ast.FuncDecl) bool {
+	news, defs, bad := 0, 0, 0
+	ast.Inspect(fd.Body, func(x ast.Node) bool {
+		switch x := x.(type) {
+		case *ast.CallExpr:
+			if lfExprText(g, x) == "new(File)" {
+				news++
+			}
+		case *ast.ValueSpec:
+			for i, nm := range x.Names {
+				if nm.Name == "f" {
+					defs++
+					if i >= len(x.Values) || lfExprText(g, x.Values[i]) != "new(File)" {
+						bad++
+					}
+				}
+			}
+		case *ast.AssignStmt:
+			for i, lhs := range x.Lhs {
+				switch lfExprText(g, lhs) {
+				case "f":
+					defs++
+					if len(x.Rhs) != len(x.Lhs) || lfExprText(g, x.Rhs[i]) != "new(File)" {
+						bad++
+					}
+				case "f.closed":
+					bad++
+				}
+			}
+		}
+		return true
+	})
+	return news == 1 && defs == 1 && bad == 0
+}
+
+// lfMutexUnlockShape: (the returned unlock function is `func() { mu.mu.Unlock(); f.Close() }`,
+// mu.mu.Lock() is a top-level statement between the OpenFile call and that return)
+func lfMutexUnlockShape(g *gen, fd *ast.FuncDecl) (plain, after bool) {
+	var lit *ast.FuncLit
+	nlit := 0
+	ast.Inspect(fd.Body, func(x ast.Node) bool {
+		if fl, ok := x.(*ast.FuncLit); ok {
+			nlit++
+			lit = fl
+			return false
+		}
+		return true
+	})
+	if nlit != 1 {
+		return false, false
+	}
+	retTop := -1
+	for i, st := range fd.Body.List {
+		if rs, ok := st.(*ast.ReturnStmt); ok && len(rs.Results) == 2 && rs.Results[0] == ast.Expr(lit) && lfExprText(g, rs.Results[1]) == "nil" {
+			retTop = i
+		}
+	}
+	b := lit.Body.List
+	plain = retTop >= 0 && lit.Type.Params.NumFields() == 0 && len(b) == 2
+	if plain {
+		for i, want := range []string{"mu.mu.Unlock()", "f.Close()"} {
+			es, ok := b[i].(*ast.ExprStmt)
+			if !ok || lfExprText(g, es.X) != want {
+				plain = false
+			}
+		}
+	}
+	open := lfCalls(fd.Body, "OpenFile")
+	nlock, lockTop := 0, -1
+	ast.Inspect(fd.Body, func(x ast.Node) bool {
+		if c, ok := x.(*ast.CallExpr); ok && lfExprText(g, c) == "mu.mu.Lock()" {
+			nlock++
+		}
+		return true
+	})
+	for i, st := range fd.Body.List {
+		if es, ok := st.(*ast.ExprStmt); ok && lfExprText(g, es.X) == "mu.mu.Lock()" {
+			lockTop = i
+		}
+	}
+	after = nlock == 1 && lockTop >= 0 && retTop > lockTop && len(open) == 1 && open[0].End() < fd.Body.List[lockTop].Pos()
+	return plain, after
 }
 
 // lfExprText: source text of an expression (for loose matching).
